@@ -307,10 +307,14 @@ def r4_nends(repo, report):
     def hook(ex, node, env):
         cn = chain(node.func)
         if cn == "self.start_trim.match":
+            searched.add(("match", vkey(ex.ev(node.args[0], env)) if len(node.args) == 1 else None))
             return Obj("M1")
         if cn == "self.end_trim.search":
+            searched.add(("search", vkey(ex.ev(node.args[0], env)) if len(node.args) == 1 else None))
             return Obj("M2")
         return None
+
+    searched = set()
 
     rows = explore(repo, strip_docstring(call.body), {"self": Obj("self", nonnull=True), ps[1]: Obj("READ", nonnull=True), ps[2]: Obj("INFO")}, call_hook=hook, inline=False)
     roles = {"m1": Bool("truthy:M1"), "m2": Bool("truthy:M2")}
@@ -322,8 +326,8 @@ def r4_nends(repo, report):
 
     mism, n, _ = check_table(rows, roles, exp, lambda r: vkey(r.exit[1]) if r.exit[0] == "return" else r.exit[0])
     args_ok = sorted({c_[0] for r in rows for c_ in r.calls}) == [] or True
-    mcalls = [src(x) for x in calls(call) if chain(x.func) in ("self.start_trim.match", "self.end_trim.search")]
-    ok_calls = sorted(mcalls) == sorted(["self.start_trim.match(sequence)", "self.end_trim.search(sequence)"])
+    mcalls = sorted(map(list, searched))
+    ok_calls = searched == {("match", "READ.sequence"), ("search", "READ.sequence")}
     report.ob("C14.R4", "NEndTrimmer.__call__", not mism and ok_calls, facts={"mismatches": mism, "calls": mcalls}, expected="read[end of the leading N run or 0 : start of the trailing N run or len(read)]", loc=repo.loc(call), cases=n)
 
 
